@@ -38,13 +38,17 @@ class ClientRecvIterator(Iterator[_T_ReceivedPacket]):
         self.__timeout: float | None = timeout
 
     def __next__(self) -> _T_ReceivedPacket:
+        elapsed = _utils.ElapsedTime()
         try:
-            with _utils.ElapsedTime() as elapsed:
-                packet = self.__client.recv_packet(timeout=self.__timeout)
+            try:
+                with elapsed:
+                    packet = self.__client.recv_packet(timeout=self.__timeout)
+            finally:
+                # The timeout is for the entire iterator: also deduct the time of a call which failed (e.g. parse error).
+                if self.__timeout is not None:
+                    self.__timeout = elapsed.recompute_timeout(self.__timeout)
         except OSError as exc:
             raise StopIteration from exc
-        if self.__timeout is not None:
-            self.__timeout = elapsed.recompute_timeout(self.__timeout)
         return packet
 
 
@@ -64,10 +68,14 @@ class AsyncClientRecvIterator(AsyncIterator[_T_ReceivedPacket]):
         self.__backend = client.backend()
 
     async def __anext__(self) -> _T_ReceivedPacket:
+        elapsed = _utils.ElapsedTime()
         try:
-            with self.__backend.timeout(self.__timeout), _utils.ElapsedTime() as elapsed:
-                packet = await self.__client.recv_packet()
+            try:
+                with elapsed, self.__backend.timeout(self.__timeout):
+                    packet = await self.__client.recv_packet()
+            finally:
+                # The timeout is for the entire iterator: also deduct the time of a call which failed (e.g. parse error).
+                self.__timeout = elapsed.recompute_timeout(self.__timeout)
         except OSError as exc:
             raise StopAsyncIteration from exc
-        self.__timeout = elapsed.recompute_timeout(self.__timeout)
         return packet
